@@ -375,7 +375,10 @@ impl SvgElement {
 
         let mut p = Position::from(self as &SvgElement);
         if self.name == "use" {
-            if let Some(href) = self.get_attr("href") {
+            if let Some(href) = self
+                .get_attr("href")
+                .or_else(|| self.get_attr("xlink:href"))
+            {
                 let elref = href.parse()?;
                 let el = ctx
                     .get_element(&elref)
@@ -695,8 +698,10 @@ impl SvgElement {
         let mut element = self;
 
         while element.name == "use" || element.name == "reuse" {
+            // `xlink:href` is the SVG 1.1 spelling
             let href = element
                 .get_attr("href")
+                .or_else(|| element.get_attr("xlink:href"))
                 .ok_or_else(|| SvgdxError::MissingAttribute("href".to_owned()))?;
             let elref = href.parse()?;
             if let Some(el) = ctx.get_element(&elref) {
